@@ -118,6 +118,42 @@ def check(run, ctx):
             else:
                 run.finding(W2, fn, f"no-use:{x}", f"{fn} no longer consults {x}", f.loc)
 
+    # sibling agreement: the directory walk and the single-file gate test the same thing against the same table -
+    # the raw component name against the directory table, the file's last suffix against the extension table
+    def _operand_shape(f_, e):
+        for _ in range(3):
+            if isinstance(e, ast.Name):
+                binds = [a.value for a in ast.walk(f_.node) if isinstance(a, ast.Assign) and len(a.targets) == 1 and isinstance(a.targets[0], ast.Name) and a.targets[0].id == e.id]
+                if len(binds) == 1:
+                    e = binds[0]
+                    continue
+            break
+        if isinstance(e, ast.Name):
+            return "raw"
+        if isinstance(e, ast.Attribute) and e.attr in ("suffix", "name"):
+            return e.attr
+        if isinstance(e, ast.Subscript) and isinstance(e.value, ast.Call) and call_name(e.value) == "splitext" and repo.fold(f_.module, e.slice) == 1:
+            return "suffix"
+        return norm(e)[:60]
+    shapes = {}
+    for fn in uses:
+        f = repo.func(f"{ORCH}.{fn}")
+        for g_ in [f] + [h for c_ in ast.walk(f.node) if isinstance(c_, ast.Call) for h in [inline.resolve_call(repo, f, c_)] if h is not None and h.module is f.module]:
+            for n in ast.walk(g_.node):
+                if isinstance(n, ast.Compare) and len(n.ops) == 1 and isinstance(n.ops[0], (ast.In, ast.NotIn)) and isinstance(n.comparators[0], ast.Name) and n.comparators[0].id in ("_HARDCODED_EXCLUDE_DIRS", "_HARDCODED_EXCLUDE_EXTENSIONS"):
+                    shapes.setdefault(n.comparators[0].id, {}).setdefault(fn, set()).add(_operand_shape(g_, n.left))
+                elif isinstance(n, ast.Call) and isinstance(n.func, ast.Attribute) and isinstance(n.func.value, ast.Name) and n.func.value.id in ("_HARDCODED_EXCLUDE_DIRS", "_HARDCODED_EXCLUDE_EXTENSIONS") and n.args:
+                    shapes.setdefault(n.func.value.id, {}).setdefault(fn, set()).add(f"{n.func.attr}({norm(n.args[0])[:50]})")
+    for table, want in (("_HARDCODED_EXCLUDE_DIRS", "raw"), ("_HARDCODED_EXCLUDE_EXTENSIONS", "suffix")):
+        per = shapes.get(table, {})
+        run.require(len(per) >= 2, f"W2: {table} is tested in {len(per)} of the walk / single-file gates only")
+        for fn, sh in sorted(per.items()):
+            odd = sorted(x for x in sh if x != want)
+            if odd:
+                run.finding(W2, fn, f"operand:{table}:{odd[0]}", f"{fn} tests `{odd[0]}` against {table} while its sibling gate tests {'the component name as it is' if want == 'raw' else 'the last suffix (`.suffix`)'}: a file is then excluded when reached through a directory walk and linted when named directly (or the other way round) - e.g. `Build/x.py`, `user.class.ts`", repo.func(f"{ORCH}.{fn}").loc)
+            else:
+                run.ok(W2, f"{fn} operand of {table}", f"{want}")
+
     def polarity(owner, e) -> int:
         """+1: e is true exactly when the name is an excluded directory name (in the table or *.egg-info); -1: its negation; 0: unknown"""
         if isinstance(e, ast.Compare) and len(e.ops) == 1 and isinstance(e.comparators[0], ast.Name) and e.comparators[0].id == "_HARDCODED_EXCLUDE_DIRS":
@@ -281,6 +317,15 @@ def check(run, ctx):
     file_vars = {t.elts[0].id for a in ast.walk(el.node) if isinstance(a, ast.Assign) and is_call_named(a.value, sf.name) for t in a.targets if isinstance(t, ast.Tuple) and t.elts and isinstance(t.elts[0], ast.Name)}
     run.require(len(file_vars) == 1, "execute_linting_on_paths: the (files, dirs) pair returned by separate_files_and_dirs is not unpacked once")
     var = next(iter(file_vars))
+    # ... and it is bound once: no second assignment, no in-place reduction between the partition and the lint calls
+    rebinds = [a for a in ast.walk(el.node) if (isinstance(a, ast.Assign) and not is_call_named(a.value, sf.name) and any(isinstance(t, ast.Name) and t.id == var for t_ in a.targets for t in ast.walk(t_)))
+               or (isinstance(a, ast.AugAssign) and isinstance(a.target, ast.Name) and a.target.id == var)
+               or (isinstance(a, ast.Call) and isinstance(a.func, ast.Attribute) and isinstance(a.func.value, ast.Name) and a.func.value.id == var and a.func.attr in ("remove", "pop", "clear", "sort", "reverse", "__delitem__"))
+               or (isinstance(a, ast.Delete) and any(isinstance(t, ast.Subscript) and isinstance(t.value, ast.Name) and t.value.id == var for t in a.targets))]
+    if rebinds:
+        run.finding(W5, "execute_linting_on_paths", f"file-group-rewritten:{norm(rebinds[0])[:60]}", f"execute_linting_on_paths rewrites the group of explicitly named files after the partition (`{norm(rebinds[0])[:90]}`): a file named on the command line can be dropped before it is linted (e.g. one below a directory target that a --no-recursive walk never reaches)", f"{el.module.rel}:{rebinds[0].lineno}")
+    else:
+        run.ok(W5, "execute_linting_on_paths file group", "bound once by the partition")
     for callee in ("lint_files", "lint_files_parallel"):
         c = next((n for n in inline.flat_nodes(repo, el) if is_call_named(n, callee)), None)   # dispatch helpers inlined, parameters substituted
         (run.ok(W5, f"execute_linting_on_paths -> {callee}", "receives the file group unchanged") if c is not None and c.args and isinstance(c.args[0], ast.Name) and c.args[0].id == var else run.finding(W5, "execute_linting_on_paths", f"arg:{callee}", f"{callee} does not receive the unfiltered file group", el.loc))
